@@ -107,6 +107,9 @@ func (e *c11Exec) Check(o *mc.Outcome) []Viol {
 	e.Finish()
 	vs := endViolations("C11", o)
 	vs = append(vs, raceViolations("C11", o)...)
+	if e.ErrChanged != "" {
+		vs = append(vs, Viol{"C11|returned-error-changed-after-return|" + e.d.Op, fmt.Sprintf("driver %s: %s", e.d, e.ErrChanged)})
+	}
 	if (o.End() == "complete" || o.End() == "leak") && e.CancelSeen && e.Err != nil && e.cleanInput {
 		// nothing but the cancellation can have gone wrong (valid input, healthy reader / writer / callback / file
 		// system): the error must be the context's error
@@ -349,6 +352,13 @@ func init() {
 			d2 := NewDrv("verify", ok3)
 			d2.Pre = map[string]byte{"a/b": 'd', "e": 'd'}
 			add("verifyfail/one-missing", d2, k1, w3)
+			// every root exists but lacks what is listed below it (the verdict of each root carries lists of paths)
+			for wi, w := range []map[string]int{w1, w2, w3} {
+				dv := NewDrv("verify", "- a\n  - b\n  - b2\n- c\n  - d\n  - d2\n- e\n  - f\n- g\n  - h\n  - h2\n")
+				dv.Pre = map[string]byte{"a": 'd', "c": 'd', "e": 'd', "g": 'd', "a/zz": 'd', "g/zz": 'f'}
+				dv.Strict = wi == 1
+				add(fmt.Sprintf("verifyfail/children-missing/w%d", wi+1), dv, k1, w)
+			}
 			d3 := NewDrv("verify", ok3)
 			d3.Pre = map[string]byte{"a/b": 'd', "a/extra": 'd', "c/d": 'd', "c/extra": 'd', "e/extra": 'd'}
 			d3.Strict = true
